@@ -126,7 +126,7 @@ def bfs_local(build, events_of, apply, key_of, on_transition, depth, max_states=
     return {"states": len(seen), "transitions": transitions, "max_depth": levels, "frontier_emptied": not frontier, "unexpanded": len(frontier), "samples": samples}
 
 
-def long_paths(build, events_of, on_transition, length, n_paths=3):
+def long_paths(build, events_of, on_transition, length, n_paths=3, late_events=("freeze",)):
     """Depth ladder: `n_paths` fixed, deterministic event sequences of `length` steps (events drawn from the enabled menu by a
     linear congruential sequence with fixed constants - the same paths on every run), far beyond the breadth-first depth.
     The same on_transition callback (apply + invariants) as in the breadth-first search is used for every step."""
@@ -137,8 +137,11 @@ def long_paths(build, events_of, on_transition, length, n_paths=3):
         st = build()
         hist = []
         x = 12345 + 7919 * p
-        for _ in range(length):
+        for step in range(length):
             evs = events_of(st)
+            if step < length // 2:
+                # irreversible events only in the second half of a path, so that both regimes get long runs
+                evs = [e for e in evs if e not in late_events] or evs
             x = (x * 1103515245 + 12345) % (1 << 31)
             ev = evs[(x >> 8) % len(evs)]
             after = on_transition(list(hist), ev, st)
